@@ -246,6 +246,7 @@ CodeOf(out) == CASE out = "ok" -> 0
                  [] out = "err:-32602" -> -32602
                  [] out = "err:-32603" -> -32603
                  [] out = "err:0" -> 0
+                 [] out = "rawbad" -> -32098
                  [] OTHER -> 1
 
 IdText(x) == IF x.echo = "" THEN "null" ELSE x.echo
@@ -259,7 +260,7 @@ ItemOK(it, t) ==
   /\ CASE x.st = "done" ->
             \* exactly the outcome of the one invocation
             \* (the built-in rpc.serverInfo returns its own payload, not the member tag)
-            IF x.out = "ok" THEN Imp("C01", it.kind = "result" /\ (it.tag = t \/ x.m = "info"))
+            IF x.out \in {"ok", "rawok"} THEN Imp("C01", it.kind = "result" /\ (it.tag = t \/ x.m = "info"))
             ELSE IF x.out = "err:baddata" THEN Imp("C01", it.kind = "error")   \* an *Error that cannot be encoded as it stands: an error object all the same
             ELSE Imp("C01", it.kind = "error" /\ it.code = CodeOf(x.out))
        [] x.st = "ready" ->
